@@ -47,4 +47,5 @@ For each change k = 1, 2, 3 write into `{out}/<k>/`:
   * `meta.json`   — {{"property": "{p['id']}", "summary": "<what the change does, 2-4 sentences>", "needs": "<what is needed for it to manifest and what still works>", "files": [...], "tests_result": "<tail line of pytest with the change>"}}
 Procedure per change: edit → run the test suite (must be 13 failed, 254 passed) → write demo → confirm demo fails with the change →
 `git diff > patch.diff` → `git checkout -- .` → confirm demo passes on the clean worktree → next change.
+Never use `git stash` (the stash is shared by all worktrees of the repository and other agents work in theirs); to look at the pristine code use `git show HEAD:lasio/<file>`.
 Leave the worktree clean (`git status` empty) when done. Finish with a short report listing the three changes.""")
